@@ -1,3 +1,4 @@
+import Txtpp.Lemmas.ConcreteCoord
 import Txtpp.Model.Panic
 import Txtpp.Lemmas.Term
 import Txtpp.Lemmas.InjectSpec
@@ -101,5 +102,17 @@ theorem site_inject_slices (t : TagState) (line : List Char) :
 
 example : byteSplit ['é', 'x'] 1 = none := by decide
 example : byteSplit ['é', 'x'] 2 = some (['é'], ['x']) := by decide
+
+/-- site `dependency.rs` `unwrap` in `notify_finish`, for the concrete run: whatever the passes
+deliver (their results depend on the file system at that moment), the whole run never reaches the
+coordinator's panic branch -/
+theorem site_notify_finish_unwrap_concrete (cfg : Cfg) (fs : FS) (inputs : List (List Char)) :
+    (runProject cfg fs inputs).1 ≠ .panic := runProject_never_panics cfg fs inputs
+
+/-- a final pass never reports dependencies and a reported dependency list is never empty: the two
+facts that make the concrete results well-typed for the coordinator -/
+theorem pass_reports_dependencies_only_as_first_pass (cfg : Cfg) (fs : FS) (src : Path) (first : Bool) (deps : List (List Char))
+    (h : (runPass cfg fs src first).1 = .hasDeps deps) : first = true ∧ deps ≠ [] :=
+  runPass_hasDeps cfg fs src first deps h
 
 end C18
